@@ -333,6 +333,28 @@ CLAIMED = {
              "Path(subpath) and Path(segment...) adopting the source's segment objects).",
         technique="Lean 4 proof (induction over mutation histories with a region invariant: frame/non-interference theorem; proved-sound closure certificates decided by the kernel on object graphs regenerated from the running code) + random mutation histories with value snapshots on the implementation",
         ref="DESIGN.md §4 C18"),
+    "C20": dict(
+        text="Lean 4 theorems about what the writer adds to the C03 reader: for every accumulated transform t and every non-singular "
+             "viewBox transform vt, the matrix the writer emits (t * vt^-1) read back under the re-parsed viewport transform is t "
+             "again (field algebra from C04: two-sided inverse, associativity); if every entry of the matrix read back is within eps "
+             "of the one meant (%f: eps = 5e-7), every point moves by at most eps(|x|+|y|+1) per coordinate (ordered-field triangle "
+             "inequality) - the tolerance the oracle uses is this bound times the viewport scale; truthiness-guarded dimensions: a "
+             "non-zero dimension is written and read back unchanged, a zero one is omitted and read back as the reader's default, "
+             "harmless where that default is 0 and provably not where it is 1 (negation theorem; known finding). Everything else is "
+             "decided on the implementation: trees of C03's generator parsed with reify False/True and constructor-built SVG/Group "
+             "trees (every shape kind, transforms of both determinant signs, viewBox present/absent) are written with string_xml "
+             "(and write_xml plain/.svgz in a scratch directory for a subset), checked well-formed, parsed back and compared shape by "
+             "shape (count, order, kind, id, absolute geometry within the proved bound, fill, stroke incl. alpha, rendered stroke "
+             "width), and the second generation is compared with the first.",
+        note="Partial: the writer's attribute selection and paint serialisation are not modelled beyond the transform and the "
+             "dimension guard; the round trip itself is an oracle relation on the implementation (no executable Lean writer to "
+             "differential-test), so this check's reach for writer changes is that of its generator. Paths with arc commands are "
+             "not generated (arc radii are printed with 6 digits: known finding C07-arc-d-6digits). Known findings: C20-nested-svg "
+             "(shapes inside nested svg elements come back displaced), C20-non-scaling-stroke-reified (width scaled twice), "
+             "C20-zero-dimension. Three fix: commits (reified circle with two radii written as circle, use written with its "
+             "transform and x/y, reify under negative scales).",
+        technique="Lean 4 proof (field algebra for the transform round trip, ordered-field bound for %f, guard lemmas) + round-trip and second-generation relations evaluated on the implementation over generated and constructor-built trees",
+        ref="DESIGN.md §4 C20"),
 }
 ALL = ["C%02d" % i for i in range(1, 21)]
 
